@@ -200,6 +200,7 @@ func main() {
 	hash := treeHash()
 	work := filepath.Join(verif, ".work", "tree-"+hash)
 	os.MkdirAll(work, 0755)
+	os.Chtimes(work, time.Now(), time.Now())
 	gcOld(filepath.Join(verif, ".work"), "tree-"+hash)
 	logf, _ := os.Create(filepath.Join(work, "vcheck-"+prop+".log"))
 	defer logf.Close()
@@ -361,9 +362,14 @@ func main() {
 		cov["known_findings_hit"] = known
 	}
 	ev := evidence{PropertyID: prop, Tier: *tier, Seed: seed, Level: spec.Level, Coverage: cov, Assumptions: spec.Assume, WallS: time.Since(t0).Seconds(), Violations: len(viols)}
-	os.MkdirAll(filepath.Join(verif, "evidence"), 0755)
+	outRoot := verif
+	if o := os.Getenv("VERIF_SCRATCH_OUT"); o != "" {
+		// seeded-change runs: keep their evidence and replay files away from the committed ones
+		outRoot = o
+	}
+	os.MkdirAll(filepath.Join(outRoot, "evidence"), 0755)
 	eb, _ := json.MarshalIndent(ev, "", " ")
-	os.WriteFile(filepath.Join(verif, "evidence", prop+".json"), eb, 0644)
+	os.WriteFile(filepath.Join(outRoot, "evidence", prop+".json"), eb, 0644)
 
 	// 3. verdict
 	ids := make([]string, 0, len(known))
@@ -384,11 +390,11 @@ func main() {
 	if len(viols) == 0 {
 		os.Exit(0)
 	}
-	os.MkdirAll(filepath.Join(verif, "replays"), 0755)
+	os.MkdirAll(filepath.Join(outRoot, "replays"), 0755)
 	for _, v := range viols {
 		b, _ := json.MarshalIndent(v, "", " ")
 		sum := sha256.Sum256(b)
-		path := filepath.Join(verif, "replays", fmt.Sprintf("%s-%x.json", prop, sum[:5]))
+		path := filepath.Join(outRoot, "replays", fmt.Sprintf("%s-%x.json", prop, sum[:5]))
 		os.WriteFile(path, b, 0644)
 		for _, m := range v.Messages {
 			fmt.Printf("  %s [%s/%s]: %s\n", prop, v.Harness, v.Scenario, firstLine(m))
@@ -446,7 +452,7 @@ func gcOld(dir, keep string) {
 	}
 	sort.Slice(old, func(i, j int) bool { return old[i].mod.After(old[j].mod) })
 	for i, o := range old {
-		if i >= 4 || time.Since(o.mod) > 24*time.Hour {
+		if i >= 8 || time.Since(o.mod) > 24*time.Hour {
 			os.RemoveAll(filepath.Join(dir, o.name))
 		}
 	}
